@@ -6,10 +6,16 @@
 (*   - `--suite S` (repeatable: union) keeps the tests in a named suite,    *)
 (*     `--no-suite S` drops them and wins over --suite; a selector is       *)
 (*     `project:suite`, `:suite` (any project), `suite` or `project`;       *)
+(*   - positional test names (`meson test A D`, `meson test proj:`,          *)
+(*     `meson test proj:name`, wildcards in both parts: "foo*" "bar*:")     *)
+(*     keep, of the tests left by the suite options, those matched by ANY   *)
+(*     of the arguments - each test once, list order preserved;             *)
 (*   - `--slice i/n` splits the selected list into n slices; i = 1..n       *)
 (*     partition it.                                                        *)
-(* A test is [name, prj, prio, suites]; a selector [a, b, colon] stands for *)
-(* the text `a:b` (colon = TRUE) or `a` (colon = FALSE).                    *)
+(* A test is [name, prj, prio, suites, nc, pc] (nc / pc: name and project   *)
+(* as sequences of one-character strings, for pattern matching); a selector *)
+(* [a, b, colon] stands for the text `a:b` (colon = TRUE) or `a` (colon =   *)
+(* FALSE); a name argument is the sequence of its characters.               *)
 (***************************************************************************)
 EXTENDS Integers, Sequences, FiniteSets
 
@@ -28,6 +34,37 @@ Filter(tests, inc, exc) ==
     IF tests = <<>> THEN <<>>
     ELSE LET rest == Filter(Tail(tests), inc, exc)
          IN IF Wanted(Head(tests), inc, exc) THEN <<Head(tests)>> \o rest ELSE rest
+
+\* ---- positional test-name arguments ----------------------------------------
+\* shell-style pattern: `*` any run of characters, `?` one character, anything else itself
+RECURSIVE Glob(_, _)
+Glob(p, s) ==
+    IF p = <<>> THEN s = <<>>
+    ELSE IF Head(p) = "*" THEN Glob(Tail(p), s) \/ (s # <<>> /\ Glob(p, Tail(s)))
+    ELSE s # <<>> /\ (Head(p) = "?" \/ Head(p) = Head(s)) /\ Glob(Tail(p), Tail(s))
+
+\* `name` = any project; `proj:` = every test of proj; `proj:name`; an empty part is a wildcard
+ColonAt(a) == IF \E i \in 1..Len(a) : a[i] = ":"
+              THEN CHOOSE i \in 1..Len(a) : a[i] = ":" /\ \A j \in 1..(i - 1) : a[j] # ":"
+              ELSE 0
+PrjPat(a) == LET c == ColonAt(a) IN IF c <= 1 THEN <<"*">> ELSE SubSeq(a, 1, c - 1)
+NamePat(a) == LET c == ColonAt(a) IN
+              IF c = 0 THEN (IF a = <<>> THEN <<"*">> ELSE a)
+              ELSE IF c = Len(a) THEN <<"*">> ELSE SubSeq(a, c + 1, Len(a))
+ArgMatches(t, a) == Glob(PrjPat(a), t.pc) /\ Glob(NamePat(a), t.nc)
+ArgsWant(t, args) == args = <<>> \/ \E i \in 1..Len(args) : ArgMatches(t, args[i])
+
+RECURSIVE ByArgs(_, _)
+ByArgs(tests, args) ==
+    IF tests = <<>> THEN <<>>
+    ELSE LET rest == ByArgs(Tail(tests), args)
+         IN IF ArgsWant(Head(tests), args) THEN <<Head(tests)>> \o rest ELSE rest
+\* an argument that matches none of the candidate tests (the command may refuse to run: the
+\* documentation does not say; it may not run anything else instead)
+Unmatched(tests, args) == \E i \in 1..Len(args) : \A j \in 1..Len(tests) : ~ArgMatches(tests[j], args[i])
+
+\* the whole selection before slicing
+Selected(tests, inc, exc, args) == ByArgs(Filter(tests, inc, exc), args)
 
 \* round-robin slicing (one way to meet the partition law; defined for 1 <= i <= n <= Len(list))
 Slice(list, i, n) == [j \in 1..((Len(list) - i) \div n + 1) |-> list[i + (j - 1) * n]]
